@@ -137,7 +137,10 @@ def expected(case, rd):
     if cfg.get("transform"):
         tf = lambda p: xform.run_transform(cfg["transform"], cfg.get("transform_flags", []), p, rd.scratch)
     f = case["filter"]
-    return sel, model.expected_groups(sel, transform=tf, match_links="-H" in case["gflags"],
+    keys = model.content_keys(sel, tf)
+    # files the reference transform fails on: fclones must leave them out WITH a warning
+    unt = [p for p, k in keys.items() if k is None] if tf else []
+    return sel, unt, model.expected_groups(sel, transform=tf, match_links="-H" in case["gflags"], keys=keys,
                                       rf_over=f.get("rf_over"), rf_under=f.get("rf_under"), unique=f.get("unique", False))
 
 
@@ -168,7 +171,7 @@ def run_case(case):
         roots = [os.path.join(rd.world.encode(), s2b(r)) for r in case["roots"]]
         args = gen.cfg_args(cfg) + filter_args(case["filter"]) + case["gflags"] + ["-f", "json"]
         env = gen.cfg_env(cfg)
-        sel, exp = expected(case, rd)
+        sel, unt, exp = expected(case, rd)
         traces = []
         n_inv = 0
         for run in range(2 if cfg.get("cache") else 1):
@@ -189,7 +192,14 @@ def run_case(case):
                 viol.append({"clause": "report-parses", "detail": "%s: %s" % (tag, e)})
                 break
             compare(exp, rep, sel, viol, tag)
-            bad = [l for l in res.warnings() if "Failed to" in l]
+            # warnings print names raw or escaped; a warning that names a file the reference transform
+            # fails on as well is the required one, not a wrong one
+            def names(p):
+                return p.decode("utf-8", "replace") in l or report.stfu8_encode(p) in l or report.stfu8_encode(os.path.basename(p)) in l
+            bad = []
+            for l in res.warnings():
+                if "Failed to" in l and not any(names(p) for p in unt):
+                    bad.append(l)
             if bad:
                 viol.append({"clause": "readable-not-dropped", "detail": "%s: warnings for readable files: %s" % (tag, bad[:3])})
         for v in viol:
